@@ -62,20 +62,19 @@ def nextState (s : TraceSlider) : Option ExecutedState × TraceSlider :=
     | none => (none, s)  -- unreachable: guarded above
     | some st => (some st, { s with position := s.position + 1, seenElements := s.seenElements + 1 })
 
-/-- `set_position_and_len` (the sum `position + subtrace_len` is an unchecked `TracePos + u32`) -/
-def setPositionAndLen (s : TraceSlider) (position subtraceLen : Nat) : Res KeeperErr TraceSlider := do
-  if subtraceLen != 0 then
-    let sum ← addU32 "trace_slider.rs:set_position_and_len:position+subtrace_len" position subtraceLen
-    if sum > s.trace.length then
-      Res.error .setSubtraceLenAndPosFailed
-    else pure { s with position := position, subtraceLen := subtraceLen, seenElements := 0 }
-  else pure { s with position := position, subtraceLen := subtraceLen, seenElements := 0 }
+/-- `set_position_and_len` (since /repo 95e5498 the sum is a `checked_add`: an overflow counts as "out of the
+trace"; an empty sub-trace may still carry any position) -/
+def setPositionAndLen (s : TraceSlider) (position subtraceLen : Nat) : Res KeeperErr TraceSlider :=
+  let outOfTrace := position + subtraceLen > u32Max || position + subtraceLen > s.trace.length
+  if subtraceLen != 0 && outOfTrace then Res.error .setSubtraceLenAndPosFailed
+  else .ok { s with position := position, subtraceLen := subtraceLen, seenElements := 0 }
 
-/-- `set_subtrace_len` (`trace_len - position` is an unchecked `TracePos - TracePos`) -/
-def setSubtraceLen (s : TraceSlider) (subtraceLen : Nat) : Res KeeperErr TraceSlider := do
-  let remainder ← subU32 "trace_slider.rs:set_subtrace_len:trace_len-position" s.trace.length s.position
+/-- `set_subtrace_len` (since /repo d774f34 `trace_len.saturating_sub(position)`: a position beyond the trace
+leaves nothing) -/
+def setSubtraceLen (s : TraceSlider) (subtraceLen : Nat) : Res KeeperErr TraceSlider :=
+  let remainder := s.trace.length - s.position
   if remainder < subtraceLen then Res.error .setSubtraceLenFailed
-  else pure { s with seenElements := 0, subtraceLen := subtraceLen }
+  else .ok { s with seenElements := 0, subtraceLen := subtraceLen }
 
 /-- `subtrace_len()` = remaining elements of the current subtrace -/
 def remaining (s : TraceSlider) : Nat := s.subtraceLen - s.seenElements
@@ -84,7 +83,7 @@ def stateAtPosition (s : TraceSlider) (p : Nat) : Option ExecutedState := s.trac
 
 end TraceSlider
 
-/-- `MergeCtx::try_get_generation` (`res_generations[0]` is an unchecked index) -/
+/-- `MergeCtx::try_get_generation` (since /repo 8502764 an `Ap` without generations is "no stream state") -/
 def tryGetGeneration (s : TraceSlider) (position : Nat) : Res KeeperErr Nat :=
   match s.stateAtPosition position with
   | none => .error .noElementAtPosition
@@ -92,7 +91,7 @@ def tryGetGeneration (s : TraceSlider) (position : Nat) : Res KeeperErr Nat :=
   | some (.ap gens) =>
     match gens with
     | g :: _ => .ok g
-    | [] => .panic "merge_ctx.rs:try_get_generation:res_generations[0]"
+    | [] => .error .noStreamState
   | some _ => .error .noStreamState
 
 /-! ## DataKeeper -/
